@@ -200,7 +200,9 @@ def run(chk):
   hv = FnView(repo, 'rule_translate.HeadToSelect')
   for n, c in hv.all_calls():
     if call_tail(c) == 'append' and receiver(c) == 'aggregated_vars':
-      ok = any(val and isinstance(e, ast.Compare) and const_str(e.left) == 'aggregation'
+      ok = any(isinstance(e, ast.Compare) and len(e.ops) == 1 and const_str(e.left) == 'aggregation'
+               and ((val and isinstance(e.ops[0], ast.In)) or
+                    (val is False and isinstance(e.ops[0], ast.NotIn)))
                for e, val in hv.guards(n))
   chk.ob('C02-R3', ok, None, "aggregated_vars collects exactly the fields with an 'aggregation' value",
          'aggregated fields are not recognised: they become GROUP BY keys', fi=hs)
